@@ -378,6 +378,9 @@ def run_property(pid, tier):
                     pass
             samples.append({"cell": r["cell"], "case": s})
 
+    idle = [r["cell"] for r in results if r["evaluations"] == 0 and not r["failures"]]
+    if results and len(idle) == len(results):
+        raise env.HarnessError("no cell evaluated anything")
     evaluations = sum(r["evaluations"] for r in results) + n_regress
     nontrivial = sum(r["nontrivial"] for r in results)
 
@@ -405,6 +408,7 @@ def run_property(pid, tier):
         "excluded": dict(sorted(excluded.items())),
         "excluded_known": {k: int(v) for k, v in sorted(known_hits.items())},
         "regressions_replayed": n_regress,
+        "cells_without_evaluations": idle[:20],
         "notes": dict(sorted(notes.items())),
         "violation_buckets": list(buckets),
     }
